@@ -38,15 +38,15 @@ theorem numEq_not_lt {x y : D} (h : numEq x y = true) : numLt x y = false ∧ nu
 
 theorem pyOp_dbl_dbl (m : Mode) (op : Op) (x y : D) :
     pyOp m op (.dbl x) (.dbl y) = .ok (six numLt numEq op x y) := by
-  simp [pyOp, pyBinop, dunder, Atom.pyNum, numCmp, dCmp_eq_six]
+  simp [pyOp, pyBinop, subclassFirst, dunder, Atom.pyNum, numCmp, dCmp_eq_six]
 
 theorem pyOp_dbl_flt (m : Mode) (op : Op) (x y : D) :
     pyOp m op (.dbl x) (.flt y) = .ok (six numLt numEq op x y) := by
-  simp [pyOp, pyBinop, dunder, Atom.pyNum, numCmp, dCmp_eq_six, six_swap]
+  simp [pyOp, pyBinop, subclassFirst, dunder, Atom.pyNum, numCmp, dCmp_eq_six, six_swap]
 
 theorem pyOp_flt_dbl (m : Mode) (op : Op) (x y : D) :
     pyOp m op (.flt x) (.dbl y) = .ok (six numLt numEq op x y) := by
-  simp [pyOp, pyBinop, dunder, Atom.pyNum, numCmp, dCmp_eq_six]
+  simp [pyOp, pyBinop, subclassFirst, dunder, Atom.pyNum, numCmp, dCmp_eq_six]
 
 /-- isclose is irrelevant when the trigger is off -/
 theorem numericEqual_of_not_tol {x y : D} (h : tolClose x y = false) : numericEqual x y = numEq x y := by
@@ -64,21 +64,21 @@ theorem numericNotEqual_of_not_tol {x y : D} (h : tolClose x y = false) :
 
 theorem pyOp_flt_flt (m : Mode) (op : Op) (x y : D) (h : (op.isEqNe && tolClose x y) = false) :
     pyOp m op (.flt x) (.flt y) = .ok (six numLt numEq op x y) := by
-  cases op <;> simp_all [pyOp, pyBinop, dunder, Atom.pyNum, numCmp, dCmp_eq_six, Op.isEqNe,
+  cases op <;> simp_all [pyOp, pyBinop, subclassFirst, dunder, Atom.pyNum, numCmp, dCmp_eq_six, Op.isEqNe,
     numericEqual_of_not_tol, numericNotEqual_of_not_tol, six]
 
 theorem pyOp_int_int (m : Mode) (op : Op) (v w : Int) :
     pyOp m op (.int v) (.int w) = .ok (six numLt numEq op (.fin v) (.fin w)) := by
-  simp [pyOp, pyBinop, dunder, Atom.pyNum, numCmp, dCmp_eq_six]
+  simp [pyOp, pyBinop, subclassFirst, dunder, Atom.pyNum, numCmp, dCmp_eq_six]
 theorem pyOp_int_dec (m : Mode) (op : Op) (v : Int) (q : Rat) :
     pyOp m op (.int v) (.dec q) = .ok (six numLt numEq op (.fin v) (.fin q)) := by
-  simp [pyOp, pyBinop, dunder, Atom.pyNum, numCmp, dCmp_eq_six, D.isNaN]
+  simp [pyOp, pyBinop, subclassFirst, dunder, Atom.pyNum, numCmp, dCmp_eq_six, D.isNaN]
 theorem pyOp_dec_int (m : Mode) (op : Op) (q : Rat) (v : Int) :
     pyOp m op (.dec q) (.int v) = .ok (six numLt numEq op (.fin q) (.fin v)) := by
-  simp [pyOp, pyBinop, dunder, Atom.pyNum, numCmp, dCmp_eq_six, D.isNaN]
+  simp [pyOp, pyBinop, subclassFirst, dunder, Atom.pyNum, numCmp, dCmp_eq_six, D.isNaN]
 theorem pyOp_dec_dec (m : Mode) (op : Op) (p q : Rat) :
     pyOp m op (.dec p) (.dec q) = .ok (six numLt numEq op (.fin p) (.fin q)) := by
-  simp [pyOp, pyBinop, dunder, Atom.pyNum, numCmp, dCmp_eq_six, D.isNaN]
+  simp [pyOp, pyBinop, subclassFirst, dunder, Atom.pyNum, numCmp, dCmp_eq_six, D.isNaN]
 
 theorem pyFloat_int_cases (v : Int) :
     (∃ e, pyFloat (.int v) = .error e) ∨ pyFloat (.int v) = .ok (toD64 v) := by
@@ -102,7 +102,7 @@ theorem getDouble_dec (q : Rat) : getDouble (.dec q) = .ok (.dbl (toD64 q)) := b
 /-- the simp set that evaluates the lattice and the Python protocol on constructor-headed atoms -/
 macro "vp_simp" : tactic => `(tactic|
   simp [valuePair, valueOp, Atom.cls, Atom.isFloatCls, isBoolA, isIntDec, isStrLike3, isStr, isQN, isNumCls,
-     Atom.isDur, numRank, castNum, pyOp, pyBinop, dunder, Atom.pyNum, numCmp, liftPy, dCmp_eq_six, isEqNe, isUA,
+     Atom.isDur, numRank, castNum, pyOp, pyBinop, subclassFirst, dunder, Atom.pyNum, numCmp, liftPy, dCmp_eq_six, isEqNe, isUA,
      sCmp, iCmp, bCmp, cmpBy_eq_six, Atom.isDT, Atom.isBin, Atom.dtVal, Atom.binVal, Atom.durVal, durInstanceOf,
      binOrdered, strLtS, strEqS, octLt, D.isNaN])
 
@@ -130,16 +130,16 @@ theorem valuePair_numeric (m : Mode) (op : Op) (a b : Atom) (i j : Nat)
   case dbl.int => vpn_simp; rw [getDouble_int h5]; simp [pyOp_dbl_dbl]
   case dbl.dec => vpn_simp
   case int.flt =>
-    simp [trigPromotion, numRank, exactVal, castNum] at h2
+    simp [trigPromotion, promRank, numRank, exactVal, castNum] at h2
     vpn_simp; rw [getDouble_int h4]; simp [pyOp_dbl_flt, h2]
   case dec.flt =>
-    simp [trigPromotion, numRank, exactVal, castNum] at h2
+    simp [trigPromotion, promRank, numRank, exactVal, castNum] at h2
     vpn_simp; simp [h2]
   case flt.int =>
-    simp [trigPromotion, numRank, exactVal, castNum] at h2
+    simp [trigPromotion, promRank, numRank, exactVal, castNum] at h2
     vpn_simp; rw [getDouble_int h5]; simp [pyOp_flt_dbl, h2]
   case flt.dec =>
-    simp [trigPromotion, numRank, exactVal, castNum] at h2
+    simp [trigPromotion, promRank, numRank, exactVal, castNum] at h2
     vpn_simp; simp [h2]
   case flt.flt x y =>
     simp [trigTol] at h1
